@@ -1,5 +1,6 @@
 import MQ.Inv.MgrPipe
 import MQ.Inv.HsFrame
+import MQ.Inv.RegInv
 /-!
 # EpochInv — deferred reclamation is memory safe: definitions and frame lemmas
 
@@ -124,49 +125,5 @@ theorem stepRun_eplain (σ : St) (t inp : Nat) (h : (σ.th t).pc.eSrc = false) :
     | (rename_i heq; simp [heq, PC.ePhase]; done)
     | (rename_i heq _; simp [heq, PC.ePhase]; done)
     | (simp [PC.ePhase, St.goto, St.gotoF, St.setTh, St.setHd, St.flush, upd, teardownStart]; done)
-
-/-- the registry part of the ring: which group is published, the groups' contents, the streams established -/
-structure EReg where
-  cur : Nat
-  groups : Nat → List Nat
-  nextGrp : Nat
-  est : Nat → Bool
-
-def St.ereg (σ : St) : EReg := { cur := σ.cur, groups := σ.groups, nextGrp := σ.nextGrp, est := σ.est }
-
-theorem ereg_of_ring {σ σ' : St} (h : σ'.ring = σ.ring) : σ'.ereg = σ.ereg := by
-  have h1 := congrArg Ring.cur h
-  have h2 := congrArg Ring.groups h
-  have h3 := congrArg Ring.nextGrp h
-  have h4 := congrArg Ring.est h
-  simp only [St.ring] at h1 h2 h3 h4
-  simp only [St.ereg, h1, h2, h3, h4]
-
-theorem sendDone_ereg (σ : St) (t : Nat) (r : Res) : (sendDone σ t r).ereg = σ.ereg := ereg_of_ring (sendDone_ring σ t r)
-theorem recvDone_ereg (σ : St) (t : Nat) (r : Res) (j : Nat) : (recvDone σ t r j).ereg = σ.ereg :=
-  ereg_of_ring (recvDone_ring σ t r j)
-
-/-- only the four list-manipulating steps touch the registry -/
-theorem stepRun_ereg_same (σ : St) (t inp : Nat)
-    (h : ∀ c raw ng, (σ.th t).pc ≠ .a2 c ∧ (σ.th t).pc ≠ .a3 c raw ng ∧ (σ.th t).pc ≠ .rr1 ∧ (σ.th t).pc ≠ .rr2 c ng) :
-    (stepRun σ t inp).2.ereg = σ.ereg := by
-  cases hr : (σ.th t).pc.ringChanging
-  · exact ereg_of_ring (stepRun_ring_same σ t inp hr)
-  · cases hpc : (σ.th t).pc <;> rw [hpc] at hr <;> (try (simp [PC.ringChanging] at hr; done))
-    case tcs hh c => simp only [stepRun, hpc]; repeat' split
-                     all_goals first | rfl | (rw [sendDone_ereg]; rfl)
-    case tcc hh tl c => simp only [stepRun, hpc]; repeat' split
-                        all_goals first | rfl | (rw [sendDone_ereg]; rfl)
-    case hd m hh => cases m <;> simp only [stepRun, hpc] <;> (repeat' split) <;> rfl
-    case wr hh o => simp only [stepRun, hpc]; rfl
-    case ts hh o => simp only [stepRun, hpc]; repeat' split
-                    all_goals first | rfl | (rw [sendDone_ereg]; rfl)
-    case r9 p sg c => simp only [stepRun, hpc]; repeat' split
-                      all_goals first | rfl | (rw [recvDone_ereg]; rfl)
-    case v4 p c => simp only [stepRun, hpc]; rw [recvDone_ereg]; rfl
-    case a2 c => exact absurd hpc (h c 0 0).1
-    case a3 c raw ng => exact absurd hpc (h c raw ng).2.1
-    case rr1 => exact absurd hpc (h 0 0 0).2.2.1
-    case rr2 c ng => exact absurd hpc (h c 0 ng).2.2.2
 
 end MQ
